@@ -303,6 +303,44 @@ def replay(body: dict) -> int:
 
 
 # ------------------------------------------------------------------ the run
+def unterminated_oracle(ck, rng) -> int:
+    """surrounding text may quote or truncate the opening tag of a serialised element: an opening tag that is never closed is
+    ordinary text — the copies before it are recovered and removed, every other character stays exactly once, and only the
+    first placeholder is replaced"""
+    from htmltools import HTMLDependency, HTMLTextDocument
+    n = 0
+    d1 = HTMLDependency("u1", "1.0", script={"src": "a.js"}, head="<!-- h -->")
+    d2 = HTMLDependency("u2", "2.0", meta={"name": "n", "content": "</script>"})
+    s1, s2 = str(d1.serialize_to_script_json()), str(d2.serialize_to_script_json(indent=2))
+    tails = ["", "x", "{\"name\": 1", "</SCRIPT", "<script>", "é\n", OPEN[:-1], OPEN + "again"]
+    fronts = ["", "a", "<p>PH</p>", "line\nPH ", "é"]
+    for front in fronts:
+        for mid in ["", "m", " PH "]:
+            for tail in tails:
+                for copies, want_names in (([], []), ([s1], ["u1"]), ([s1, s2], ["u1", "u2"]), ([s1, s1], ["u1"])):
+                    n += 1
+                    ck.holds_checked += 1
+                    text = front + mid.join(copies) + mid + OPEN + tail
+                    want_html = front + mid.join([""] * len(copies)) + mid + OPEN + tail
+                    try:
+                        got: list = []
+                        doc = HTMLTextDocument(text, deps=got, deps_replace_pattern="PH")
+                        names = [d.name for d in got]
+                        kept = doc._html
+                        r = doc.render()["html"]
+                    except Exception as e:  # noqa: BLE001
+                        ck.py_violation("textdoc-unterminated " + es(text), f"raised {type(e).__name__}: {e}", "a text with an unterminated opening tag raised", py=repr(text)[:300])
+                        continue
+                    ok_render = r.count(OPEN + tail) == 1 and (("PH" not in want_html) or r.count("PH") == want_html.count("PH") - 1)
+                    if names != want_names or kept != want_html or not ok_render:
+                        ck.py_violation("textdoc-unterminated " + es(text), kept[:400],
+                                        f"text with {len(copies)} serialised copies followed by an opening tag that is never closed: kept text {kept!r} (expected {want_html!r}), "
+                                        f"recovered {names} (expected {want_names}); rendered: {r[:200]!r}",
+                                        py=f"HTMLTextDocument({text[:200]!r}..., deps=[], deps_replace_pattern='PH')")
+    ck.exhaustive_scopes.append({"scope": "an opening tag that is never closed after 0-2 serialised copies: 5 fronts x 3 separators x 8 tails x 4 copy lists", "n": n, "exhaustive": True})
+    return n
+
+
 def reparse_oracle(ck) -> int:
     """a text is parsed, the recovered dependency objects are edited in place through the caller's own list, and the same
     text is parsed again (also after a different text): every parse recovers dependencies equal to the serialised ones"""
@@ -600,6 +638,8 @@ def run(tier: str) -> int:
     ck.src_lines += list(zip(repl, core.impl_many(repl)))
     __import__("srctie_c13").add_src_c13(ck)       # Props/SrcC13.lean: the regenerated extraction / __init__ / render / serialize and Py/PrimC13.lean against the interpreter
     ck.extra_cov["reparse_histories"] = reparse_oracle(ck)
+    ck.extra_cov["unterminated_open_cases"] = unterminated_oracle(ck, ck.rng)
+    ck.extra_cov["extraction_pattern_located_in_source"] = ops_json.PATTERN_LOCATED
     ck.correspond(holds=True)
 
     # ---------------- 6. same markup as HTMLDocument puts in <head> (Python-side, both real)
